@@ -239,9 +239,36 @@ def enum_c03(g, fraction):
     return out
 
 
+def outer_aliases(g, q, p_query=0.3):
+    """SELECT ?a AS ?x: some projected bindings get an outer alias - a fresh name or the name of ANOTHER binding of
+    the pattern (so that output names shadow or swap pattern bindings); sets q['select'] / q['outnames']."""
+    r = g.rng
+    if r.random() >= p_query:
+        return
+    names = bqlgen.pattern_names(q["clauses"])
+    sel, out = [], []
+    for i, b in enumerate(q["proj"]):
+        al = b
+        x = r.random()
+        if x < 0.3:
+            al = "?o%d" % i
+        elif x < 0.6 and len(names) > 1:
+            al = r.choice([n for n in names if n != b])
+        if al in out or (al != b and al in q["proj"][i + 1:] and r.random() < 0.5):
+            al = b if b not in out else "?o%d" % i
+        if al in out:
+            return
+        out.append(al)
+        sel.append(b if al == b else "%s AS %s" % (b, al))
+    if len(set(out)) != len(out):
+        return
+    q["select"], q["outnames"] = sel, out
+
+
 def q_text(q):
-    return bqlgen.render_select({"select": q["proj"], "ngraphs": len(q["graphs"]), "clauses": q["clauses"],
-                                 "glo": q["glo"], "ghi": q["ghi"], "alt": q.get("alt", False)})
+    return bqlgen.render_select({"select": q.get("select") or q["proj"], "ngraphs": len(q["graphs"]), "clauses": q["clauses"],
+                                 "glo": q["glo"], "ghi": q["ghi"], "alt": q.get("alt", False),
+                                 "filters": q.get("filters")})
 
 
 def q_features(q):
@@ -269,18 +296,111 @@ def q_features(q):
     return f
 
 
-def check_q(prop, v, tier, d):
-    g = Gen(vlib.seed() * 7919 + (3 if prop == "C03" else 10))
-    budget = {"C03": (6000, 150000), "C10": (4000, 80000)}[prop][0 if tier == "quick" else 1]
-    qs = gen_c03(g, budget, optional=(prop == "C10"))
+def gen_filter_queries(g, budget):
+    """SELECTs with FILTER clauses (C09 reached through BQL): (a) one-clause patterns built to make every filter
+    function selective (several anchors per predicate identifier, ties, predicate-valued objects, data split over
+    several graphs: the filter is applied per lookup, i.e. per graph); (b) patterns of the C03 generator with a
+    filter on one or two of their predicate/object bindings.  What the documentation leaves open is sorted out by
+    BQLSemantics.FilterOpen, not here."""
+    S, P, O, clause = bqlgen.S, bqlgen.P, bqlgen.O, bqlgen.clause
+    r = g.rng
+    ops = ["latest", "isTemporal", "isImmutable"]
+    tmp_rich = [1, 2, 3, 20, 13, 14, 6, 26, 27, 28, 29, 30, 39, 24, 23]      # p, q, s, a: immutable + several instants
+    reif = [15, 16, 17, 1, 2, 3, 4, 20]                                        # predicate-valued objects
+    qs = []
+    for i in range(budget):
+        x = r.random()
+        if x < 0.55:
+            obj_field = r.random() < 0.35
+            base = list(reif) if obj_field else list(tmp_rich)
+            extra = [t for t in range(1, len(bqlu.TRIPLES) + 1) if t not in base]
+            content = sorted(set(r.sample(base, r.randint(max(2, len(base) - 4), len(base))) + r.sample(extra, r.randint(0, 5))))
+            s = S(c=r.choice([1, 2, 3])) if r.random() < 0.4 else S(b="?s")
+            pk = r.random()
+            if obj_field:
+                p = P(c=r.choice([7, 8])) if pk < 0.3 else P(b="?p")
+                o = O(b="?o")
+                if r.random() < 0.3:
+                    o["as"] = "?oa"
+                if r.random() < 0.2:
+                    o["at"] = "?ot"
+                if r.random() < 0.2:
+                    o["id"] = "?oi"
+                fb = "?oa" if o["as"] and r.random() < 0.5 else "?o"
+            else:
+                if pk < 0.6:
+                    p = P(b="?p")
+                elif pk < 0.8:
+                    p = P(c=r.choice([1, 2, 3, 4, 5, 12, 13]), as_="?p")
+                else:
+                    p = P(pid=r.choice(bqlgen.PIDS), ab="?t", as_="?p")
+                if p["b"] and r.random() < 0.3:
+                    p["as"] = "?pa"
+                if r.random() < 0.2:
+                    p["at"] = "?pt"
+                if r.random() < 0.2:
+                    p["id"] = "?pi"
+                ok = r.random()
+                o = O(b="?o") if ok < 0.7 else O(cell=r.choice(bqlgen.OBJ_CONSTS))
+                if o["b"] and r.random() < 0.15:
+                    o["ty"] = "?oty"
+                fb = "?pa" if p["as"] == "?pa" and r.random() < 0.5 else "?p"
+            cls = [clause(s, p, o)]
+            if r.random() < 0.25:   # a second clause joined on the subject or disjoint
+                c2 = g.seeded_clause(content, {}, ["?s", "?z", "?w"], p_alias=0.1)
+                cls.append(c2)
+            filters = [{"op": r.choice(ops), "b": fb}]
+        else:
+            content = g.content()
+            pool = bqlgen.VARS[:4]
+            valvar = {}
+            k = r.choice([1, 2, 2, 3])
+            cls = [g.seeded_clause(content, valvar, pool, p_alias=0.15) if r.random() < 0.8 else g.clause(pool[:3], p_alias=0.15)
+                   for _ in range(k)]
+            cand = []
+            for c in cls:
+                cand += [n for n in (c["p"]["b"], c["p"]["as"], c["o"]["b"], c["o"]["as"]) if n]
+            if not cand:
+                continue
+            nf = 1 if r.random() < 0.85 else 2
+            filters = []
+            for b in r.sample(sorted(set(cand)), min(nf, len(set(cand)))):
+                filters.append({"op": r.choice(ops if k == 1 else ["isTemporal", "isImmutable", "isTemporal", "isImmutable", "latest"]), "b": b})
+        proj = g.proj(cls)
+        if not proj:
+            continue
+        if any(not bqlgen.names_of(c) and not bqlgen.specific(c) for c in cls):
+            continue   # binding-free clauses run into the recorded C03 finding rows-without-bindings-dropped
+        ngraphs = r.choice([1, 1, 2, 3])
+        graphs = g.split(content, ngraphs, overlap=r.random() < 0.15)
+        glo, ghi = g.bounds() if r.random() < 0.4 else (0, 0)
+        qs.append({"clauses": cls, "proj": proj, "graphs": graphs, "glo": glo, "ghi": ghi, "alt": r.random() < 0.2,
+                   "filters": filters})
+    return qs
+
+
+def check_bqlfilter(v, tier, d):
+    """C09, second part: the filter functions reached through BQL FILTER clauses (bql/planner/filter, planner)."""
+    g = Gen(vlib.seed() * 7919 + 909)
+    qs = gen_filter_queries(g, 2500 if tier == "quick" else 60000)
+    check_q("C09", v, tier, d, qs=qs, covkey="bql_filter")
+
+
+def check_q(prop, v, tier, d, qs=None, covkey=None):
     n_enum = 0
-    if prop == "C03":
-        eq = enum_c03(g, 0.06 if tier == "quick" else 1.0)
-        n_enum = len(eq)
-        qs = eq + qs
+    if qs is None:
+        g = Gen(vlib.seed() * 7919 + (3 if prop == "C03" else 10))
+        budget = {"C03": (6000, 150000), "C10": (4000, 80000)}[prop][0 if tier == "quick" else 1]
+        qs = gen_c03(g, budget, optional=(prop == "C10"))
+        if prop == "C03":
+            eq = enum_c03(g, 0.06 if tier == "quick" else 1.0)
+            n_enum = len(eq)
+            qs = eq + qs
     cases = []
+    ga = Gen(vlib.seed() * 104729 + 17)
     for i, q in enumerate(qs):
         q["id"] = i
+        outer_aliases(ga, q)
         cases.append({"id": i, "graphs": q["graphs"], "text": q_text(q)})
     res = run_cases(cases, d, prop)
     events, evq = [], []
@@ -297,7 +417,7 @@ def check_q(prop, v, tier, d):
             continue
         if r["clauses"] != q["clauses"]:
             stats["dump_mismatch"] += 1
-        rows = rows_in_order(r, q["proj"]) if not is_err(r) else []
+        rows = rows_in_order(r, q.get("outnames") or q["proj"]) if not is_err(r) else []
         if rows is None:
             v.reject("result-columns", {"text": c["text"], "cols": r["cols"]}, {"case": c})
             continue
@@ -307,26 +427,41 @@ def check_q(prop, v, tier, d):
             stats["nonempty"] += 1
         distinct.add(c["text"])
         events.append({"ev": "Q", "prop": prop, "id": q["id"], "graphs": q["graphs"], "clauses": q["clauses"], "proj": q["proj"],
-                       "glo": q["glo"], "ghi": q["ghi"], "err": is_err(r), "rows": rows})
+                       "glo": q["glo"], "ghi": q["ghi"], "err": is_err(r), "rows": rows, "filters": q.get("filters") or []})
         evq.append((q, c, r))
     rejects, opens, states = validate(events, d, prop)
+    elsewhere = 0
     for idx, p, cls in rejects:
         q, c, r = evq[idx]
         name = classify_q(prop, cls, q, r)
+        if covkey and v.findings.known("C03", name):
+            # exactly the answer a recorded C03 deviation predicts (FILTER semantics included): reported by C03
+            elsewhere += 1
+            continue
         v.reject(name, {"text": c["text"], "graphs": q["graphs"], "class": cls, "err": r["err"][:200], "rows": r["rows"][:6]},
                  {"case": c, "event": events[idx]})
-    v.cov.update({"states": states, "transitions": len(events), "traces_validated_against_impl": len(events),
+    cov = v.cov if covkey is None else v.cov.setdefault(covkey, {})
+    if covkey:
+        cov["filter_functions"] = {op: sum(1 for q, _, _ in evq for f in q.get("filters") or [] if f["op"] == op)
+                                   for op in ("latest", "isTemporal", "isImmutable")}
+        cov["rejected_but_exactly_a_recorded_C03_deviation"] = elsewhere
+    cov.update({"states": states, "transitions": len(events), "traces_validated_against_impl": len(events),
                   "queries_generated": len(cases), "enumerated_small_scope_shapes": n_enum, "exhaustive": prop == "C03" and tier == "thorough",
                   "queries_judged": len(events) - opens, "open_not_judged": opens,
                   "distinct_queries": len(distinct), "nonempty_results": stats["nonempty"],
                   "parser_rejected_not_judged": stats["parser_rejected"], "exec_errors": stats["exec_errors"],
                   "parse_dump_mismatch": stats["dump_mismatch"], "rejected_events": len(rejects),
                   "samples": [{"text": c["text"], "graphs": q["graphs"], "rows": r["rows"][:4]} for q, c, r in evq[:3]]})
+    if covkey:
+        v.assumptions += ["BQL FILTER: judged per BQLSemantics.FilteredData (per graph lookup: candidates = constants of the clause, window, filter); "
+                          "cases the documentation leaves open (FilterOpen) are counted, not judged"]
+        return {"events": len(events), "open": opens, "rejects": len(rejects)}
     v.assumptions += ["query texts are rendered from the AST by lib/bqlgen.py; the parsed pattern dumped by the driver agreed with the AST in all but parse_dump_mismatch cases",
                       "multiplicity is left open only when distinct triples give the same assignment or one triple is in several FROM graphs",
                       "statements the parser/semantic layer rejects are not judged here (C18)"]
     if stats["parser_rejected"] * 3 > len(cases):
         raise Infra("more than a third of the generated queries were rejected by the parser: generator or grammar drift")
+    return {"events": len(events), "open": opens, "rejects": len(rejects)}
 
 
 def classify_q(prop, cls, q, r):
